@@ -6,6 +6,13 @@
  *                     payload, "no padding holes"): compared as two 64-bit words;
  *   memset(p,0,sizeof *p)  (chan_init, mux_init, sort_init) -> assignment of a zero object, so
  *                     that clearing one channel does not turn the enclosing array into bytes;
+ *   union chan_data   { struct chan_stack stack (512 values, 8 KiB); struct value value; } is
+ *                     declared as a STRUCT (as harness/C08 and C17 do): every channel of these
+ *                     harnesses is CHAN_SINGLE, and chan.c / chan.h touch data.stack only behind
+ *                     `type == CHAN_STACK` and data.value only behind CHAN_SINGLE, so no code
+ *                     under them reads one member after writing the other.  As a union every
+ *                     write of data.value is a byte update of the 8 KiB object (symex time of
+ *                     the mux harnesses -40%); -DC20_REAL_UNION restores the union.
  *   calloc            typed zeroed static pools chosen by element size (harness provides
  *                     C20_ALLOC); allocation failure is outside every claim (DESIGN 1.2).
  */
@@ -53,6 +60,12 @@ v_calloc(size_t n, size_t sz)
 	return p;
 }
 #define calloc(n, sz) v_calloc(n, sz)
+
+#ifndef C20_REAL_UNION
+#define union struct
+#include "chan.h"
+#undef union
+#endif
 
 static int
 veq(struct value a, struct value b)
